@@ -817,7 +817,9 @@ class CaseGen:
         if k == "leaf":
             sp = dict(k="leaf", **self.leaf())
         elif k == "const":
-            sp = {"k": "const", "v": r.choice(["c%d" % n, n, {"t": ["k", n]}])}
+            # (falsy constants included: a member / implementation whose value is None, 0, False or "" is a value like
+            # any other)
+            sp = {"k": "const", "v": r.choice(["c%d" % n, n, {"t": ["k", n]}, None, 0, False, ""])}
         elif k == "opt":
             sp = {"k": "opt", "key": r.choice(["A", "B"]), "d": r.choice([None, {"d": "o%d" % n}])}
         else:
